@@ -4,8 +4,9 @@
 (*                entry <<path, type, value>> per attribute / slot / container   *)
 (*                item; shared = mutable cells reachable from both (by path);    *)
 (*                oexp / cexp = exported text re-read as <<key path, key, value>>*)
-(*  k = "mutate": one in-place mutation of one side after the copy; the export   *)
-(*                of the OTHER side before and after, digests of both walks      *)
+(*  k = "mutate": in-place mutation of one side after the copy; digests (before,  *)
+(*                after) of the OTHER side's exported text and of both walks,    *)
+(*                plus the first entries that changed                            *)
 (*  k = "binop":  operand walks before / after an operator, cells the result     *)
 (*                shares with an operand                                         *)
 (* All failing clauses of a record are printed (one line per clause and place).  *)
@@ -65,10 +66,8 @@ MutateVerdicts(r) ==
     LET other == IF r.mut.side = "c" THEN "o" ELSE "c"
         mine == r.mut.side
     IN  (IF r.exc # "" THEN {Bad("mutate.raised", MutWhat(r), r.exc)} ELSE {})
-        \cup (IF ToSet(r.other_exp_before) # ToSet(r.other_exp_after)
-              THEN {Bad("frame.export", MutWhat(r), [side |-> other,
-                        lost |-> ToSet(r.other_exp_before) \ ToSet(r.other_exp_after),
-                        got |-> ToSet(r.other_exp_after) \ ToSet(r.other_exp_before)])} ELSE {})
+        \cup (IF r.ed[1] # r.ed[2]
+              THEN {Bad("frame.export", MutWhat(r), [side |-> other, changed |-> r.edelta])} ELSE {})
         \cup (IF r.wd[other][1] # r.wd[other][2] THEN {Bad("frame.state", MutWhat(r), [side |-> other, changed |-> r.delta])} ELSE {})
         \cup (IF r.exc = "" /\ r.wd[mine][1] = r.wd[mine][2] THEN {Bad("noeffect", MutWhat(r), 0)} ELSE {})
 
